@@ -12,7 +12,8 @@
     What is proved here is the second sentence of the property: every
     failure is surfaced, as a returned error or as a transition to an
     error-handling node whose bindings carry the diagnostics. *)
-From Sheens Require Import Model.Step Spec.WalkSpec Proofs.StepFacts Proofs.EngineFacts Proofs.WalkProofs.
+From Sheens Require Import Model.Step Spec.WalkSpec Proofs.StepFacts Proofs.EngineFacts Proofs.WalkProofs
+     Proofs.SndMatchSound Proofs.MatchTerminates.
 
 Section C07.
 Variable action : Type.
@@ -77,6 +78,18 @@ Proof.
 Qed.
 End C07.
 
+(** the matcher terminates on EVERY pattern, message and bindings - variable
+    names inside messages and inside bound values included (after the D6
+    repair) - within a fuel that is linear in the depths involved, for every
+    iteration order; so the model's [EFuel] outcome cannot occur for inputs
+    within the model's default fuel, and the Go recursion is bounded by the
+    same measure (no unbounded recursion / stack overflow) *)
+Theorem C07_matcher_terminates :
+  forall ord, perm_oracle ord ->
+  forall p f bs fuel, match_fuel_for p f bs <= fuel -> match_ ord fuel p f bs <> Fuel.
+Proof. exact match_terminates. Qed.
+
+Print Assumptions C07_matcher_terminates.
 Print Assumptions C07_step_error_surfaced.
 Print Assumptions C07_action_failure_routed.
 Print Assumptions C07_no_branch_surfaced.
